@@ -682,6 +682,58 @@ fn collect_variables(exp: &Exp, variables: &mut IndexSet<String>) {
     }
 }
 
+/// Read-only wrappers exposing the bound analysis to verification harnesses.
+#[cfg(feature = "verif-hooks")]
+pub mod verif {
+    use super::{BoundsAnalyzer, BoundsOptions, DEFAULT_TOLERANCE};
+    use crate::parser::model_transformer::{Exp, Model};
+    use indexmap::IndexMap;
+
+    /// Result of running the analysis on a model.
+    pub struct DerivedBounds {
+        analyzer: BoundsAnalyzer,
+    }
+
+    impl DerivedBounds {
+        /// Derived `(lower, upper)` of every variable the analysis knows.
+        pub fn variables(&self) -> IndexMap<String, (f64, f64)> {
+            self.analyzer
+                .variable_bounds
+                .iter()
+                .map(|(name, bounds)| (name.clone(), (bounds.lower, bounds.upper)))
+                .collect()
+        }
+        pub fn reached_limit(&self) -> bool {
+            self.analyzer.reached_iteration_limit
+        }
+        pub fn infeasible(&self) -> bool {
+            self.analyzer.detected_infeasible
+        }
+        /// Forward enclosure of an expression under the derived variable bounds.
+        pub fn bounds_of(&self, exp: &Exp) -> (f64, f64) {
+            let bounds = self.analyzer.bounds_of(exp);
+            (bounds.lower, bounds.upper)
+        }
+    }
+
+    /// Runs the analysis exactly as `Linearizer::linearize` does, optionally
+    /// with a smaller propagation step limit.
+    pub fn derived_bounds(model: &Model, max_steps: Option<usize>) -> DerivedBounds {
+        let analyzer = match max_steps {
+            None => BoundsAnalyzer::analyze(model.domain(), model.constraints()),
+            Some(max_steps) => BoundsAnalyzer::analyze_with_options(
+                model.domain(),
+                model.constraints(),
+                BoundsOptions {
+                    tolerance: DEFAULT_TOLERANCE,
+                    max_steps,
+                },
+            ),
+        };
+        DerivedBounds { analyzer }
+    }
+}
+
 #[cfg(test)]
 mod tests {
     use super::{Bounds, BoundsAnalyzer, BoundsOptions, DEFAULT_TOLERANCE};
